@@ -82,6 +82,101 @@ def apply(j):
     return j, pairs
 
 
+def apply_fields(j):
+    """renamed struct fields: a field of the recorded data model (tables/known_functions.json "fields": adt -> [[name, type]..]) that
+    is gone while the same struct has exactly one new field of the same type at the same position is given its old name back, in
+    the ADT table, in aggregates of that ADT and in field projections (by name, only if no other ADT of the crate has a field with
+    the new name - otherwise nothing is done and the rules fail closed)"""
+    try:
+        k = json.load(open(KNOWN))
+    except Exception:
+        return j, {}
+    known = k.get('fields') or {}
+    all_names = {}
+    for a in j['adts']:
+        for v in a.get('variants', []):
+            for f in v.get('fields', []):
+                all_names.setdefault(f['name'], set()).add(a['path'])
+    ren = {}
+    for a in j['adts']:
+        if a.get('kind') != 'struct' or a['path'] not in known:
+            continue
+        old = known[a['path']]
+        cur = [(f['name'], f['ty']) for f in a['variants'][0]['fields']] if a.get('variants') else []
+        if len(old) != len(cur):
+            continue
+        for (on, ot), (cn, ct) in zip(old, cur):
+            if on != cn and ot == ct and on not in [c[0] for c in cur] and not cn.isdigit():
+                ren[(a['path'], cn)] = on
+    if not ren:
+        return j, {}
+    for a in j['adts']:
+        for v in a.get('variants', []):
+            for f in v.get('fields', []):
+                if (a['path'], f['name']) in ren:
+                    f['name'] = ren[(a['path'], f['name'])]
+    short = {}
+    for (ap, cn), on in ren.items():
+        short.setdefault(_tykey(ap), {})[cn] = on
+
+    def place(o, locals_):
+        cur = locals_[o['l']]['ty'] if o['l'] < len(locals_) else ''
+        for e in o['p']:
+            if e.get('k') == 'field':
+                m = short.get(_tykey(cur))
+                if m and e.get('n') in m:
+                    e['n'] = m[e['n']]
+                cur = e.get('ty', '')
+            elif e.get('k') in ('deref',):
+                cur = cur.lstrip('&').replace('mut ', '', 1) if cur.startswith('&') else cur
+            elif 'ty' in e:
+                cur = e['ty']
+
+    def fix(o, locals_):
+        if isinstance(o, list):
+            for x in o:
+                fix(x, locals_)
+        elif isinstance(o, dict):
+            if 'l' in o and isinstance(o.get('p'), list):
+                place(o, locals_)
+            if o.get('k') == 'agg' and isinstance(o.get('fields'), list) and o.get('adt'):
+                m = short.get(_tykey(o['adt']))
+                if m:
+                    o['fields'] = [m.get(n, n) if isinstance(n, str) else n for n in o['fields']]
+            for x in o.values():
+                fix(x, locals_)
+    for b in j['bodies']:
+        fix(b['blocks'], b['locals'])
+    return j, {'%s.%s' % (ap.split('::')[-1], cn): on for (ap, cn), on in ren.items()}
+
+
+def _tykey(t):
+    """'&mut parse::ParseInfo' / 'asefile::parse::ParseInfo' / 'cel::CelsData<P>' -> 'parse::ParseInfo' style key"""
+    t = t.strip()
+    while t.startswith('&'):
+        t = t[1:].strip()
+        if t.startswith('mut '):
+            t = t[4:].strip()
+        if t.startswith("'"):
+            t = t.split(' ', 1)[1] if ' ' in t else t
+    t = t.split('<')[0]
+    if t.startswith('asefile::'):
+        t = t[len('asefile::'):]
+    return t
+
+
+def field_table(fact_files):
+    out = {}
+    for fp in fact_files:
+        jj = json.load(open(fp))
+        for a in jj['adts']:
+            if a.get('kind') == 'struct' and a['path'].startswith('asefile::') and a.get('variants'):
+                fs = [[f['name'], f['ty']] for f in a['variants'][0]['fields']]
+                if fs and not fs[0][0].isdigit():
+                    out[a['path']] = fs
+    return out
+
+
 def signatures(fact_files):
     """signature table for the crate-private functions of the given fact files (used once, to extend known_functions.json)"""
     out = {}
